@@ -26,10 +26,6 @@ TOL_EOS = 1e-4
 TOL_PHI = 1e-6
 LNPHI_LO, LNPHI_HI = -4.6, 4.44
 FINDING_KEY = "fixedV-numerical-negative-PR-pressure"
-FINDING3_KEY = "gas-component-not-in-model-stale-partial-pressure"
-MINIMAL_FINDING3 = ("SOLUTION 1\n temp 25\nGAS_PHASE 1\n -fixed_pressure\n -pressure 0.5\n -volume 1\n CO2(g) 0.005\n H2O(g) 0.495\nEND\n"
-                    "SOLUTION 2\n temp 70\n units mol/kgw\n Na 1\n Cl 1\nGAS_PHASE 2\n -fixed_pressure\n -pressure 0.2985\n -volume 1\n -temperature 70\n"
-                    " CO2(g) 0\n H2O(g) 0\nEND\n# phreeqc.dat: second simulation reports 13.5 mol H2O(g) at 0.2985 atm although 10^SI/phi = 0.29272; alone: no gas phase")
 FINDING2_KEY = "fixedV-vm-iteration-accepted-early"
 MINIMAL_FINDING2 = ("SOLUTION 1\n temp 10\n -water 100\nGAS_PHASE 1\n -fixed_volume\n -volume 0.01\n -temperature 10\n H2O(g) 1.0\nEND\n"
                     "# phreeqc.dat: run completes; GAS_P=0.0122698, GAS_VM=1890.22, 10^SI/(PR_PHI*PR_P)=1.0016176 = EOS-consistent V_m / GAS_VM")
@@ -604,17 +600,6 @@ def judge(ctx, case, res, pre):
         ntot = sum(n)
         # equilibrium partial pressures from the saturation indices
         peq = [(10 ** s) / f if s > -90 and f > 0 else 0.0 for s, f in zip(si, phi)]
-        if gtype == "fixedP" and not ideal and any(n[i] == 0 and si[i] <= -99 for i in range(len(gases))):
-            # known departure `gas-component-not-in-model-stale-partial-pressure`: a listed component whose elements are absent from the
-            # system keeps p_soln_x of the previous calculation, which enters the sum of partial pressures of the pressure equation
-            pfix = cx["ptot"]
-            dev = (max(0.0, sum(peq) / pfix - 1) if p == 0 else rel(sum(peq), pfix))
-            if dev > TOL_EOS:
-                cnt["component_not_in_model_stale_p"] = cnt.get("component_not_in_model_stale_p", 0) + 1
-                checks.append(("FINDING:" + FINDING3_KEY, dev, TOL_EOS,
-                               f"fixed-pressure phase lists a component that is not in the model; GAS_P={p}, fixed P={pfix}, equilibrium partial "
-                               f"pressures of the components in the model sum to {sum(peq)} (gases={gases}, n={n})"))
-                continue
         if gtype == "fixedP":
             pfix = cx["ptot"]
             if p == 0:
@@ -766,7 +751,7 @@ def real_runs(ctx, exe, ok):
             if name.startswith("FINDING:"):
                 key = name.split(":", 1)[1]
                 ctx.finding(key, msg, {"kind": "real", "case": dict(case),
-                                       "minimal_replay": {FINDING_KEY: MINIMAL_FINDING, FINDING2_KEY: MINIMAL_FINDING2}.get(key, MINIMAL_FINDING3)})
+                                       "minimal_replay": MINIMAL_FINDING if key == FINDING_KEY else MINIMAL_FINDING2})
                 stats["known_departure_rows"] = stats.get("known_departure_rows", 0) + 1
                 continue
             r = rels.setdefault(name, {"n": 0, "max": 0.0})
